@@ -31,16 +31,16 @@ inductive Res (α : Type) where
 deriving Repr, DecidableEq
 
 /-! ## bytes -/
-def cSlash : UInt8 := 47
-def cQuest : UInt8 := 63
-def cHash : UInt8 := 35
-def cPct : UInt8 := 37
-def cColon : UInt8 := 58
-def cAt : UInt8 := 64
-def cDot : UInt8 := 46
-def cStar : UInt8 := 42
-def cLBrack : UInt8 := 91
-def cRBrack : UInt8 := 93
+abbrev cSlash : UInt8 := 47
+abbrev cQuest : UInt8 := 63
+abbrev cHash : UInt8 := 35
+abbrev cPct : UInt8 := 37
+abbrev cColon : UInt8 := 58
+abbrev cAt : UInt8 := 64
+abbrev cDot : UInt8 := 46
+abbrev cStar : UInt8 := 42
+abbrev cLBrack : UInt8 := 91
+abbrev cRBrack : UInt8 := 93
 
 def isAlpha (c : UInt8) : Bool := (97 ≤ c && c ≤ 122) || (65 ≤ c && c ≤ 90)
 def isDigit (c : UInt8) : Bool := 48 ≤ c && c ≤ 57
